@@ -21,6 +21,7 @@
 // For every n (all: 0..|image|) the first n bytes of the image are placed in a buffer of EXACTLY n
 // accessible bytes (the byte at offset n and the following 8 GiB are PROT_NONE, so is the page
 // before the buffer's first page) and every path is run on a fresh copy under proto::guarded.
+// (cursor traversals: see `ctrav` below)
 // Answer: one block per n joined by ',', one character per path:
 //   o completed | A assertion handler | F SIGSEGV/SIGBUS | U UBSan trap | ? malformed path
 #pragma once
@@ -302,9 +303,61 @@ void group_ops(G g, const path& p, std::size_t i, EN en, HN hn)
     }
 }
 
-using fn_t = std::function<void(char*, std::size_t, const path&)>;
+// ---- cursor traversals ---------------------------------------------------
+//   ctrav <msg> <hex image> <n | all> <count>
+// For every n and every (k, wrapper) with k < count, wrapper in plain, init, dont_move,
+// init_dont_move, skip: `auto c = sbepp::init_cursor(m)`, members 0..k-1 in schema order through
+// the plain cursor (entries through cursor_range), member k through the wrapper, then stop.
+struct done
+{
+};
 
-inline int main_loop(const std::map<std::string, fn_t>& table)
+struct ctrav
+{
+    long target;
+    int variant;
+    long k;
+};
+
+#define C10_VARIANTS(T, V, NAME, C)                                    \
+    switch((T).variant)                                                \
+    {                                                                  \
+    case 0:                                                            \
+        (void)(V).NAME(C);                                             \
+        break;                                                         \
+    case 1:                                                            \
+        (void)(V).NAME(::sbepp::cursor_ops::init(C));                  \
+        break;                                                         \
+    case 2:                                                            \
+        (void)(V).NAME(::sbepp::cursor_ops::dont_move(C));             \
+        break;                                                         \
+    case 3:                                                            \
+        (void)(V).NAME(::sbepp::cursor_ops::init_dont_move(C));        \
+        break;                                                         \
+    default:                                                           \
+        (V).NAME(::sbepp::cursor_ops::skip(C));                        \
+        break;                                                         \
+    }
+
+// one member: through the wrapper and stop if it is the target, else through the plain cursor
+#define C10_ACC(T, V, NAME, C)            \
+    if((T).k == (T).target)               \
+    {                                     \
+        C10_VARIANTS(T, V, NAME, C)       \
+        throw ::c10::done{};              \
+    }                                     \
+    (T).k++;
+
+using fn_t = std::function<void(char*, std::size_t, const path&)>;
+using cfn_t = std::function<void(char*, std::size_t, ctrav&)>;
+
+struct msg_entry
+{
+    fn_t ra;
+    cfn_t cur;
+};
+
+inline int main_loop(const std::map<std::string, msg_entry>& table)
 {
     proto::install_handlers();
     std::string line;
@@ -314,12 +367,52 @@ inline int main_loop(const std::map<std::string, fn_t>& table)
         std::string cmd, msg, hex, ns, ps;
         is >> cmd >> msg >> hex >> ns >> ps;
         auto it = table.find(msg);
-        if(cmd != "trunc" || it == table.end())
+        if((cmd != "trunc" && cmd != "ctrav") || it == table.end())
         {
             std::cout << "bad-op\n";
             continue;
         }
         const auto img = proto::unhex(hex);
+        if(cmd == "ctrav")
+        {
+            const long count = std::strtol(ps.c_str(), nullptr, 10);
+            std::size_t lo = 0, hi = img.size();
+            if(ns != "all")
+            {
+                lo = hi = static_cast<std::size_t>(std::strtoull(ns.c_str(), nullptr, 10));
+            }
+            std::string out;
+            for(std::size_t n = lo; n <= hi; n++)
+            {
+                gbuf gb{n};
+                if(n != lo)
+                {
+                    out += ",";
+                }
+                for(long k = 0; k < count; k++)
+                {
+                    for(int var = 0; var < 5; var++)
+                    {
+                        std::memcpy(gb.p, img.data(), std::min(n, img.size()));
+                        ctrav t{k, var, 0};
+                        const auto st = proto::guarded(
+                            [&]
+                            {
+                                try
+                                {
+                                    it->second.cur(gb.p, n, t);
+                                }
+                                catch(const done&)
+                                {
+                                }
+                            });
+                        out += st.empty() ? "o" : st == "ASSERT" ? "A" : st == "FAULT" ? "F" : "U";
+                    }
+                }
+            }
+            std::cout << out << "\n";
+            continue;
+        }
         std::vector<path> paths;
         for(const auto& s : split(ps, ';'))
         {
@@ -347,7 +440,7 @@ inline int main_loop(const std::map<std::string, fn_t>& table)
                     {
                         try
                         {
-                            it->second(gb.p, n, p);
+                            it->second.ra(gb.p, n, p);
                         }
                         catch(const bad_path&)
                         {
